@@ -423,11 +423,20 @@ class InstanceValue(Object):
     @cached_property
     def _attrs(self):
         # type: () -> Attributes
+        # class attributes along the MRO, shadowed by what is assigned through self
         attrs = self.cls._attrs.copy()
+        attrs.update(self._assigned)
+        return attrs
+
+    @cached_property
+    def _assigned(self):
+        # type: () -> Attributes
+        """Attributes assigned through self in the methods of the class and of its bases"""
+        attrs = {}  # type: Attributes
         for b in reversed(self.cls.bases):
             o = b.call(self.ctx)
-            if o:
-                attrs.update(o._attrs)
+            if isinstance(o, InstanceValue):
+                attrs.update(o._assigned)
         attrs.update(self.cls.scope.top.assigns(self.ctx).get(self, {}))
         return attrs
 
